@@ -26,6 +26,11 @@ func newStringPrefixFilter(code *syntax.Code) StringPrefixFilter {
 	if code == nil || code.RightToLeft || code.FindOptimizations == nil {
 		return nil
 	}
+	// The filter makes callers start the scan at the candidate it returns, which would also
+	// move the origin that \G refers to.
+	if code.UsesStartAnchor() {
+		return nil
+	}
 
 	opts := code.FindOptimizations
 	minRequiredLength := opts.MinRequiredLength
